@@ -1204,8 +1204,10 @@ rrul_fill_mly(echs_instant_t *restrict tgt, size_t nti, rrulsp_t rr)
 			echs_shift_bvalue(rr->shift) * 7 / 5;
 
 		if (tmp > 0) {
-			/* start early, dates shifted forward may reach us */
-			m -= 1 + --tmp / 30;
+			/* start early, dates shifted forward may reach us,
+			 * be generous, months can be as short as 28 days and
+			 * a weekend adds up to 2 days to a business day shift */
+			m -= 1 + (tmp + 2) / 28;
 		} else if (tmp < -62) {
 			/* start late, dates shifted backward can't reach us,
 			 * be conservative, months have up to 31 days and the
